@@ -1,6 +1,8 @@
 import Vore.Driver.Print
 import Vore.Driver.Ops
 import Vore.Driver.ParseRes
+import Vore.Spec.Search
+import Vore.Lemmas.Replace
 /-!
 # Driver — line protocol: one case per input line, one result line per case.
 `<id> TAB <op> TAB <field> …`
@@ -21,6 +23,21 @@ def cutBy : List Nat → List Match → List (List Match)
   | [], rest => if rest.isEmpty then [] else [rest]
   | n :: ns, ms => ms.take n :: cutBy ns (ms.drop n)
 
+/-- C01: per command with a call-free body and no global patterns in scope, is the
+implementation's result the window of `Spec.findAll`?  Returns (commands checked, all equal). -/
+def specOk (text : Bytes) (cmds : List (Cmd × GenState)) (groups : List (List Match)) : Nat × Bool :=
+  (cmds.zip groups).foldl (fun (acc : Nat × Bool) (cg : (Cmd × GenState) × List Match) =>
+    let chk (amt : Amount) (e : Expr) : Nat × Bool :=
+      if Spec.callFreeB e && cg.1.2.globals.isEmpty then
+        match Spec.findAll text e with
+        | some A => (acc.1 + 1, acc.2 && sameMatches ((Spec.window amt A).map eraseRepl) (cg.2.map eraseRepl))
+        | none => (acc.1 + 1, false)
+      else acc
+    match cg.1.1 with
+    | .find amt e => chk amt e
+    | .replace amt e _ => chk amt e
+    | _ => acc) (0, true)
+
 /-- property predicates evaluated on the implementation's result (4th field) -/
 def predsOn (cmds : List Cmd) (lens : List Nat) (text : Bytes) (impl : String) : String :=
   match parseMatches impl with
@@ -28,8 +45,11 @@ def predsOn (cmds : List Cmd) (lens : List Nat) (text : Bytes) (impl : String) :
   | some ms =>
     if lens.foldl (· + ·) 0 != ms.length then "PRED na" else
     let groups := cutBy lens ms
+    let gs := genStates cmds {}
+    let sp := specOk text gs groups
     "PRED faithful=" ++ boolStr (groups.all (Spec.faithful text)) ++
-      " replacement=" ++ boolStr (replacementsOk procFuel "text".toUTF8.toList (genStates cmds {}) groups)
+      " replacement=" ++ boolStr (replacementsOk procFuel "text".toUTF8.toList gs groups) ++
+      (if sp.1 == 0 then "" else " spec=" ++ boolStr sp.2)
 
 def handleRun (fields : List String) : String :=
   match fields with
